@@ -164,7 +164,10 @@ theorem updateLocal_inc_decrease_witness :
     (s.regs 1).map (·.inc) = some 5 ∧ ((updateLocal s 1 .healthy 0).1.regs 1).map (·.inc) = some 0 := by
   decide
 
-/-- the clock invariant every reachable replica state satisfies: it dominates all stored stamps -/
+/-- the clock invariant every reachable replica state satisfies: it dominates all stored stamps
+    (`WF s` is `∀ m e, s.regs m = some e → e.ts ≤ s.clock`; `Op.merge b` takes an arbitrary batch,
+    so this already covers every internal order of a batch — spelled out, with the strict form
+    for a freshly merged batch, as `clock_dominates_held_timestamps` in §9) -/
 theorem wf_reachable (ops : List Op) : WF (run State.empty ops) := run_wf wf_empty ops
 
 /-- stronger than `inc_monotone`: on a reachable state every operation can only raise a member's
@@ -361,6 +364,165 @@ theorem tie_witness_old :
 example :
     (deliver State.empty [[⟨0, ⟨.healthy, 5, 1⟩⟩], [⟨0, ⟨.failed, 5, 1⟩⟩]]).regs 0 = some ⟨.failed, 5, 1⟩ ∧
     (deliver State.empty [[⟨0, ⟨.failed, 5, 1⟩⟩], [⟨0, ⟨.healthy, 5, 1⟩⟩]]).regs 0 = some ⟨.failed, 5, 1⟩ := by
+  decide
+
+/-! ## 9. the clock dominates every held timestamp, so local events survive re-delivery -/
+
+/-- The invariant that makes local events win.  In every state reachable by any sequence of
+    merges of ARBITRARY batches (any internal order of the entries — the newest entry at the head
+    or anywhere else —, any repetition, re-deliveries of earlier batches) and local events:
+    (1) the Lamport clock is at least every timestamp the replica holds (`wf_reachable` spelled
+    out), and (2) one more merge of any batch leaves the clock strictly above the timestamp of
+    every entry of that batch, wherever the entry sits in it.  Hence the stamp `clock + 1` of the
+    next local suspect / fail / refute / mark_healthy is above everything held. -/
+theorem clock_dominates_held_timestamps (ops : List Op) :
+    (∀ m e, (run State.empty ops).regs m = some e → e.ts ≤ (run State.empty ops).clock) ∧
+    (∀ (b : List Update) (u : Update), u ∈ b → u.reg.ts < (merge (run State.empty ops) b).1.clock) := by
+  refine ⟨wf_reachable ops, ?_⟩
+  intro b u hu
+  obtain ⟨t, ht, hle⟩ := maxTs_ge hu
+  rw [merge_clock, ht]
+  simp only []
+  omega
+
+/-- the same for the manager: after any sequence of handled messages (Sync with ANY `sender_time`,
+    also one behind the timestamps of its own states, and any order of the states; Suspect; Alive;
+    add_peer) the manager's clock is at least every timestamp in its view -/
+theorem mgr_clock_dominates_held_timestamps (loc maxDelta : Nat) (msgs : List Msg) (m : Nat) (e : Reg)
+    (h : ((Mgr.new loc maxDelta).run msgs).st.regs m = some e) :
+    e.ts ≤ ((Mgr.new loc maxDelta).run msgs).st.clock :=
+  mgr_run_wf _ (mgr_new_wf loc maxDelta) msgs m e h
+
+-- non-vacuity: a batch whose head is its OLDEST entry; a Sync whose sender_time is behind its states
+example :
+    (run State.empty [.merge [⟨2, ⟨.healthy, 3, 1⟩⟩, ⟨3, ⟨.healthy, 5, 2⟩⟩, ⟨1, ⟨.healthy, 9, 1⟩⟩]]).regs 1
+      = some ⟨.healthy, 9, 1⟩ ∧
+    (run State.empty [.merge [⟨2, ⟨.healthy, 3, 1⟩⟩, ⟨3, ⟨.healthy, 5, 2⟩⟩, ⟨1, ⟨.healthy, 9, 1⟩⟩]]).clock = 10 ∧
+    ((Mgr.new 5 100).run [.sync 4 [⟨2, ⟨.healthy, 3, 1⟩⟩, ⟨1, ⟨.healthy, 9, 1⟩⟩] 0]).st.regs 1
+      = some ⟨.healthy, 9, 1⟩ ∧
+    ((Mgr.new 5 100).run [.sync 4 [⟨2, ⟨.healthy, 3, 1⟩⟩, ⟨1, ⟨.healthy, 9, 1⟩⟩] 0]).st.clock = 12 := by
+  decide
+
+/-- `redelivery_is_noop` extended to histories with local events and to "in-between" updates:
+    after ANY admissible history (merges of arbitrary batches in arbitrary order, local events,
+    earlier re-deliveries), delivering any further batches — in any order and grouping — whose
+    entries for `m` are each an update the replica has already merged or generated, or older (in
+    the key order) than one, changes nothing for `m`. -/
+theorem redelivery_after_local_events_is_noop (ops : List Op) (hadm : Admissible State.empty ops)
+    (m : Nat) (bs : List (List Update))
+    (hold : ∀ u ∈ bs.flatten, u.node = m →
+      ∃ y, (⟨m, y⟩ : Update) ∈ seen State.empty ops ∧ u.reg.le y) :
+    (deliver (run State.empty ops) bs).regs m = (run State.empty ops).regs m := by
+  rw [deliver_regs]
+  apply joinList_absorb
+  intro x hx
+  obtain ⟨y, hy, hle⟩ := hold ⟨m, x⟩ (mem_forMember.mp hx) rfl
+  have hj := run_join wf_empty ops hadm m
+  obtain ⟨_, _, h3⟩ := joinList_isJoin (State.empty.regs m) (forMember m (seen State.empty ops))
+  rw [← hj] at h3
+  exact OLe.trans (show OLe (some x) (some y) from hle) (h3 y (mem_forMember.mpr hy))
+
+/-- A local verdict is never lost to old news.  At any reachable replica state, when a local
+    suspect / fail / refute / mark_healthy on member `m` succeeds (returns `true`), the register
+    it writes carries the event's health and the fresh stamp `clock + 1`, and it is still exactly
+    that register after merging ANY batches — any number, any internal order — made of entries
+    for `m` that existed at the replica before the event (re-deliveries of anything it had merged
+    or generated) or are older than such an entry (late updates with an in-between timestamp). -/
+theorem local_event_survives_redelivery (ops : List Op) (hadm : Admissible State.empty ops) (o : Op)
+    (m : Nat) (h : Health) (ht : localTarget o = some (m, h))
+    (hsucc : emitted (run State.empty ops) o ≠ []) (bs : List (List Update))
+    (hold : ∀ u ∈ bs.flatten, u.node = m →
+      ∃ y, (⟨m, y⟩ : Update) ∈ seen State.empty ops ∧ u.reg.le y) :
+    ∃ x, (apply (run State.empty ops) o).regs m = some x ∧ x.health = h ∧
+      x.ts = (run State.empty ops).clock + 1 ∧
+      (deliver (apply (run State.empty ops) o) bs).regs m = some x := by
+  have key : OpOk (run State.empty ops) o →
+      (deliver (apply (run State.empty ops) o) bs).regs m = (apply (run State.empty ops) o).regs m := by
+    intro hok
+    have h1 := redelivery_after_local_events_is_noop (ops ++ [o])
+      (admissible_append hadm ⟨hok, trivial⟩) m bs (fun u hu hm => by
+        obtain ⟨y, hy, hle⟩ := hold u hu hm
+        exact ⟨y, by rw [seen_append]; exact List.mem_append_left _ hy, hle⟩)
+    rw [run_append] at h1
+    exact h1
+  cases o with
+  | merge b => simp [localTarget] at ht
+  | updateLocal m' hh i => simp [localTarget] at ht
+  | suspect m' i =>
+    simp only [localTarget, Option.some.injEq, Prod.mk.injEq] at ht
+    obtain ⟨rfl, rfl⟩ := ht
+    simp only [emitted] at hsucc; rw [suspect_spec] at hsucc
+    obtain ⟨e, _, _, hr, _⟩ := localOp_emitted _ _ hsucc
+    exact ⟨_, hr, rfl, rfl, (key trivial).trans hr⟩
+  | fail m' =>
+    simp only [localTarget, Option.some.injEq, Prod.mk.injEq] at ht
+    obtain ⟨rfl, rfl⟩ := ht
+    simp only [emitted] at hsucc; rw [fail_spec] at hsucc
+    obtain ⟨e, _, _, hr, _⟩ := localOp_emitted _ _ hsucc
+    exact ⟨_, hr, rfl, rfl, (key trivial).trans hr⟩
+  | refute m' i =>
+    simp only [localTarget, Option.some.injEq, Prod.mk.injEq] at ht
+    obtain ⟨rfl, rfl⟩ := ht
+    simp only [emitted] at hsucc; rw [refute_spec] at hsucc
+    obtain ⟨e, _, _, hr, _⟩ := localOp_emitted _ _ hsucc
+    exact ⟨_, hr, rfl, rfl, (key trivial).trans hr⟩
+  | markHealthy m' =>
+    simp only [localTarget, Option.some.injEq, Prod.mk.injEq] at ht
+    obtain ⟨rfl, rfl⟩ := ht
+    simp only [emitted] at hsucc; rw [markHealthy_spec] at hsucc
+    obtain ⟨e, _, _, hr, _⟩ := localOp_emitted _ _ hsucc
+    exact ⟨_, hr, rfl, rfl, (key trivial).trans hr⟩
+
+-- non-vacuity (the seeded scenario on the real merge): a batch whose head is not its newest
+-- entry, a successful local `fail`, then the same batch again in the other order plus a late
+-- update with an in-between timestamp: the hypotheses hold and the verdict stays
+example :
+    let ops : List Op := [.merge [⟨2, ⟨.healthy, 3, 1⟩⟩, ⟨1, ⟨.healthy, 9, 1⟩⟩]]
+    let bs : List (List Update) := [[⟨1, ⟨.healthy, 9, 1⟩⟩, ⟨2, ⟨.healthy, 3, 1⟩⟩], [⟨1, ⟨.healthy, 7, 1⟩⟩]]
+    Admissible State.empty ops ∧ localTarget (.fail 1) = some (1, .failed) ∧
+    emitted (run State.empty ops) (.fail 1) ≠ [] ∧
+    (∀ u ∈ bs.flatten, u.node = 1 → ∃ y, (⟨1, y⟩ : Update) ∈ seen State.empty ops ∧ u.reg.le y) ∧
+    (apply (run State.empty ops) (.fail 1)).regs 1 = some ⟨.failed, 11, 1⟩ ∧
+    (deliver (apply (run State.empty ops) (.fail 1)) bs).regs 1 = some ⟨.failed, 11, 1⟩ := by
+  refine ⟨⟨trivial, trivial⟩, rfl, by decide, ?_, by decide, by decide⟩
+  intro u hu hm
+  refine ⟨⟨.healthy, 9, 1⟩, by decide, ?_⟩
+  simp only [List.flatten_cons, List.flatten_nil, List.append_nil, List.cons_append, List.nil_append,
+    List.mem_cons, List.not_mem_nil, or_false] at hu
+  rcases hu with rfl | rfl | rfl
+  · decide
+  · exact absurd hm (by decide)
+  · decide
+
+/-- Taking the clock from the FIRST entry of the batch (`mergeClockFromHead`: `incoming.first()`
+    instead of the maximum timestamp) breaks both, on a 2-entry batch whose head is not its newest
+    entry: the registers are those of the real merge, but the clock (4) is behind a held timestamp
+    (9); a successful local `fail` is stamped 5, older than the entry it replaces; re-delivery of
+    the very same batch — by either merge — reverts the verdict to Healthy; and two replicas given
+    the same two updates (only the order inside the batch differs), the same local `fail` and the
+    same late update end with different views. -/
+theorem mergeClockFromHead_witness :
+    let batch : List Update := [⟨2, ⟨.healthy, 3, 1⟩⟩, ⟨1, ⟨.healthy, 9, 1⟩⟩]
+    let s := (mergeClockFromHead State.empty batch).1
+    let s' := (fail s 1).1
+    let t := (mergeClockFromHead State.empty batch.reverse).1
+    let late : List Update := [⟨1, ⟨.healthy, 7, 1⟩⟩]
+    (s.regs 1 = (merge State.empty batch).1.regs 1 ∧ s.regs 1 = some ⟨.healthy, 9, 1⟩ ∧ s.clock = 4) ∧
+    ((fail s 1).2 = true ∧ s'.regs 1 = some ⟨.failed, 5, 1⟩) ∧
+    ((mergeClockFromHead s' batch).1.regs 1 = some ⟨.healthy, 9, 1⟩ ∧
+      (merge s' batch).1.regs 1 = some ⟨.healthy, 9, 1⟩) ∧
+    ((mergeClockFromHead (fail t 1).1 late).1.regs 1 = some ⟨.failed, 11, 1⟩ ∧
+      (mergeClockFromHead s' late).1.regs 1 = some ⟨.healthy, 7, 1⟩) := by
+  decide
+
+-- the same steps with the current merge: clock 10, the `fail` stamped 11, both orders agree
+example :
+    let batch : List Update := [⟨2, ⟨.healthy, 3, 1⟩⟩, ⟨1, ⟨.healthy, 9, 1⟩⟩]
+    let s := (merge State.empty batch).1
+    let t := (merge State.empty batch.reverse).1
+    s.clock = 10 ∧ (fail s 1).1.regs 1 = some ⟨.failed, 11, 1⟩ ∧
+    (merge (fail s 1).1 batch).1.regs 1 = some ⟨.failed, 11, 1⟩ ∧
+    (merge (fail s 1).1 [⟨1, ⟨.healthy, 7, 1⟩⟩]).1.regs 1 = (merge (fail t 1).1 [⟨1, ⟨.healthy, 7, 1⟩⟩]).1.regs 1 := by
   decide
 
 end Neumann.Gossip.Props
